@@ -81,7 +81,7 @@ func TestCheck(t *testing.T) {
 					cases = append(cases, faults.Case{Kind: "hello-truncation", Proto: "h2", K: k})
 				}
 			}
-			for k := 0; k < 6; k++ {
+			for k := 0; k < faults.H2Frames; k++ {
 				for v := 0; v < faults.H2FieldVariants(); v++ {
 					if !ev.Thorough() && (k+v)%2 != 0 {
 						continue
@@ -198,8 +198,14 @@ func timeouts(t *testing.T, rep *ev.Report) {
 	// idle timeout
 	for _, I := range []time.Duration{30 * time.Second, 180 * time.Second} {
 		for _, proto := range []string{"h1", "h2"} {
-			for _, nreq := range []int{1, 2} {
+			for _, nreq := range []int{1, 2, 3} { // 3 = two served requests, then (h2) a third one cancelled by RST_STREAM while in flight / (h1) nothing more
+				if nreq == 3 && proto == "h1" {
+					continue
+				}
 				desc := fmt.Sprintf("idle-timeout I=%v proto=%s after %d request(s)", I, proto, nreq)
+				if nreq == 3 {
+					desc = fmt.Sprintf("idle-timeout I=%v proto=h2 after 2 served requests and one request cancelled by RST_STREAM while in flight", I)
+				}
 				res := bubble.Run(t, func() {
 					st := bubble.NewStack(binaryStack("10s", I.String()))
 					defer st.Shutdown()
@@ -214,7 +220,11 @@ func timeouts(t *testing.T, rep *ev.Report) {
 						synctest.Wait()
 						cl.Write(h2wire.SettingsAck())
 					}
-					for i := 0; i < nreq; i++ {
+					served := nreq
+					if nreq == 3 {
+						served = 2
+					}
+					for i := 0; i < served; i++ {
 						if proto == "h1" {
 							cl.SendH1(bubble.Req{Path: fmt.Sprintf("/i%d", i), Host: "localhost"})
 						} else {
@@ -222,6 +232,20 @@ func timeouts(t *testing.T, rep *ev.Report) {
 						}
 						synctest.Wait()
 						time.Sleep(time.Second)
+						synctest.Wait()
+					}
+					if nreq == 3 {
+						release := make(chan struct{})
+						st.Backend.Hold = func(r *bubble.RecReq) {
+							if r.Path == "/cancelled" {
+								<-release
+							}
+						}
+						cl.SendH2(5, bubble.Req{Path: "/cancelled", Host: "localhost"})
+						synctest.Wait()
+						cl.Write(h2wire.RST(5, 8)) // CANCEL
+						synctest.Wait()
+						close(release)
 						synctest.Wait()
 					}
 					if st.Backend.Count() != nreq {
